@@ -15,6 +15,7 @@ mod c13;
 mod c14;
 mod c15;
 mod c16;
+mod c17;
 mod c20;
 
 pub fn level_of(p: &str) -> &'static str {
@@ -40,6 +41,7 @@ fn dispatch(ctx: &Ctx, replay: Option<&serde_json::Value>) {
         "C14" => c14::run(ctx, replay),
         "C15" => c15::run(ctx, replay),
         "C16" => c16::run(ctx, replay),
+        "C17" => c17::run(ctx, replay),
         "C20" => c20::run(ctx, replay),
         p => {
             eprintln!("unknown property {p}");
